@@ -238,7 +238,9 @@ def check_predictor(res, case, p, entries, sub0, tag):
                 res.violation(f"{tag}|outside wrong exception|{nm}", f"{type(ex).__name__}: {ex} [{sub0}]", case, sub0)
     # ---- phasepol, then predictions again (history: phasepol must not disturb the predictor)
     for k, e in enumerate(entries):
-        for m0 in (e.tmid, e.tmid + F(600, 86400), e.start + F(31, 86400)):
+        # (the 4th and 5th reference times are 100 ns / 400 ns after the 3rd: distinct requests, distinct answers)
+        m3 = e.start + F(31, 86400)
+        for m0 in (e.tmid, e.tmid + F(600, 86400), m3, m3 + F(1, 10 ** 7) / 86400, m3 + F(4, 10 ** 7) / 86400):
             t0 = mjd_time(m0)
             me0 = exact_mjd(t0)
             sub = dict(sub0, entry=k, t0=float(me0))
@@ -292,6 +294,32 @@ def check_predictor(res, case, p, entries, sub0, tag):
                     res.violation(f"{tag}|time_at value", f"time_at(p(t)) is off by {float(dsec):.3g} s [entry {k}]", case,
                                   dict(sub0, entry=k))
                 res.hits["time_at"] += 1
+                # the same inversion started from guesses in this entry, in the neighbouring entries and two entries away
+                if sub0.get("scheme") == "touch" or tag == "shipped":
+                    for dk in (0, -1, 1, -2, 2):
+                        if not 0 <= k + dk < len(entries):
+                            continue
+                        g = entries[k + dk]
+                        gm = g.tmid + F(1, 5) * (g.stop - g.tmid)
+                        if not any(c.start < gm < c.stop for c in entries):
+                            continue
+                        try:
+                            tb = p.time_at(ph, guess=mjd_time(gm))
+                        except Exception as ex:
+                            if dk and isinstance(ex, ValueError) and "outside predictor range" in str(ex):
+                                # Newton's step from a distant guess may leave the tabulated range: the refusal is sound
+                                res.skipped["time_at: iteration from a distant guess left the predictor range (refused)"] += 1
+                                continue
+                            res.violation(f"{tag}|time_at(guess) raised", f"{type(ex).__name__}: {ex} [entry {k}, guess in entry {k + dk}]",
+                                          case, dict(sub0, entry=k, guess_entry=k + dk))
+                            continue
+                        res.transitions += 1
+                        dsec = abs(exact_mjd(tb) - me) * 86400
+                        if not res.ratio("time_at(guess) err / 1e-7 s", dsec, F(1, 10 ** 7) + F(1, 10 ** 6) / e.f0):
+                            res.violation(f"{tag}|time_at(guess) value", f"time_at(p(t), guess in entry {k + dk}) is off by "
+                                          f"{float(dsec):.3g} s [entry {k}]", case, dict(sub0, entry=k, guess_entry=k + dk))
+                        if dk:
+                            res.hits["time_at with a guess in another entry"] += 1
         # phases outside -> ValueError
         lo = entries[0].phase(entries[0].start) - 1000
         hi = entries[-1].phase(entries[-1].stop) + 1000
@@ -411,7 +439,7 @@ def main(argv=None):
     return report.run_check(
         PID, gen_cases=gen_cases, check_case=check_case, describe=describe,
         required_hits=["spans merged", "several disjoint intervals", "unsorted array across entries", "outside rejected",
-                       "phasepol", "history: predictions re-checked after phasepol", "time_at", "row subsets",
+                       "phasepol", "history: predictions re-checked after phasepol", "time_at", "time_at with a guess in another entry", "row subsets",
                        "coefficient count not a multiple of three", "D exponents", "shipped file", "mixed entries rejected", "other time scales"],
         assumptions=["decimal strings of the text are the exact inputs; time is the exact (jd1, jd2) of the Time object; budget "
                      "1e-8 cycle + F0*86400*2^-51", "times inside a < 1 ms gap between spans and exactly on a span end are "
